@@ -16,7 +16,7 @@ Cmp(s) == [f \in DOMAIN s \ {"grantVals", "grantExp"} |-> s[f]]
 \* spending from a grant never changes when it expires: for every grant that existed before and still
 \* exists after a transaction that contains no approve-family call, the expiration is the same
 RECURSIVE HasApprove(_)
-HasApproveOp(o) == (o.op = "pc" /\ o.m \in ApproveFamily) \/ (o.op \in {"call", "create"} /\ (HasApprove(o.body) \/ HasApprove(o.alt)))
+HasApproveOp(o) == (o.op = "pc" /\ o.m \in ApproveFamily \cup IbcFamily) \/ (o.op \in {"call", "create"} /\ (HasApprove(o.body) \/ HasApprove(o.alt)))
 HasApprove(body) == \E i \in 1..Len(body) : HasApproveOp(body[i])
 ExpiryChanged(e) ==
     {<<g, x, t>> \in UNION {UNION {{<<g2, x2, t2>> : t2 \in DOMAIN e.pre.grants[g2][x2]} : x2 \in DOMAIN e.pre.grants[g2]} : g2 \in DOMAIN e.pre.grants} :
